@@ -236,7 +236,9 @@ def evaluate__map_merge(self: XPathFunction, context: ta.ContextType = None) -> 
 
     items: dict[Any, Any] = {}
     for map_ in self[0].select(context):
-        assert isinstance(map_, XPathMap)
+        if not isinstance(map_, XPathMap):
+            msg = f"1st argument item has type {type(map_)!r} instead of map(*)"
+            raise self.error('XPTY0004', msg)
         for k1, v in map_.items(context):
             # Speed up for certain key types or float values
             if isinstance(k1, SAFE_KEY_ATOMIC_TYPES) or \
